@@ -138,6 +138,13 @@ func c11ClsRun(sp c11ClsSpec, c *mc.Ctx) {
 			q.Write(root)
 			r := proj.Run(root, q.Args(root), nil)
 			judge(fmt.Sprintf("tillage dates %v (crops sown/harvested %v)", dates, c11ClsCrops), inside, allowed, r)
+			if len(tills) > 1 {
+				// the same list in a file that lists another field's event behind the first one (two blocks)
+				q.MgmtSplit = true
+				q.Write(root)
+				r = proj.Run(root, q.Args(root), nil)
+				judge(fmt.Sprintf("tillage dates %v in two blocks of the tillage file (crops sown/harvested %v)", dates, c11ClsCrops), inside, allowed, r)
+			}
 		}
 	case "year":
 		p := c11ClsProject(200)
